@@ -3,7 +3,7 @@ Props/C01 — property theorems for C01 (radio link: exactly once, in order, des
 Helper lemmas are in Proofs/C01*.  Every theorem is about Model/C01 (the driver thread, regenerated
 constants and bit expressions from Gen/C01) and, for the closed-system theorems, Spec/C01 (peer + channel).
 -/
-import CfVerif.Proofs.C01
+import CfVerif.Proofs.C01Thm
 namespace CfVerif.C01
 open CfVerif
 
@@ -39,7 +39,12 @@ theorem gen_crazyradio : Gen.C01.statusCond = "data[0] != 0" ∧ Gen.C01.ackPayl
     Gen.C01.noStatusBody = "ackIn.retry = self.arc" ∧
     Gen.C01.ackDefaults = "ack = False; powerDet = False; retry = 0; data = ()" := by decide
 
-/-! ## Facts about the driver thread alone (any answers from the radio, any application behaviour) -/
+/-- The handshake constants fit the peer: the request is what the peer recognises as the safelink control packet
+(with a non-zero enable byte), the expected echo is the request itself, and the counters the host starts from after
+confirmation (0, 0) differ from the ones the peer resets to (1, 1), so that the first data frame is fresh. -/
+theorem gen_safelink_handshake : GenOk := genOk
+
+/-! ## The driver thread alone (ANY answers from the radio, ANY application behaviour) -/
 
 /-- The model's totalised branches are unreachable: `dataOut` is never empty (so `packet[0]` never raises)
 and the one-bit counters only ever hold 0 or 1 (so `1 - x` on `Nat` is Python's `1 - x`). -/
@@ -59,8 +64,122 @@ theorem needs_resending_eq (n : Nat) (ops : List Op) :
     gen_bits_init.2.2.1 gen_bits_init.2.2.2 ops
   exact ⟨fun hn => (this.neg hn).2, this.done⟩
 
-/-! ## Non-vacuity -/
+/-- Safelink is used only if the peer confirmed it during link start-up: the thread is in safelink mode iff one of
+the answers to its (at most `Gen.safelinkAttempts` = 10) negotiation requests was the exact echo; and while it is not
+in safelink mode it transmits frames unmodified. -/
+theorem safelink_only_if_confirmed (n : Nat) (ops : List Op) :
+    let h := ((Host.init n).run ops).1
+    (h.safelink = true ↔ (negAnswers (Host.init n) ops).any isEcho = true) ∧
+    (negAnswers (Host.init n) ops).length ≤ Gen.C01.safelinkAttempts ∧
+    (h.safelink = false → h.frameOut = h.out) := by
+  have hi := hostInv_init n gen_init_frame gen_bits_init.1 gen_bits_init.2.1
+  have := safelink_run hi (by decide) gen_bits_init.2.2.1 gen_bits_init.2.2.2 ops
+  refine ⟨?_, this.2, fun hs => by simp [Host.frameOut, hs]⟩
+  show ((Host.init n).run ops).1.safelink = true ↔ _
+  rw [this.1]
+  simp [Host.init]
 
-example : (((Host.init 3).run [.tx (.resp ⟨false, false, 0, []⟩), .tx (.resp ⟨true, false, 0, [0xff, 0x05, 0x01]⟩)]).1.negLeft = 0) := by decide
+/-- A link error is reported exactly when the configured number of consecutive transmissions go unacknowledged, the
+count restarting at every acknowledgement: over any run in which the radio always answers, the sequence of
+"'Too many packets lost' was reported at this data-loop transmission" is what the rule `specErrs n` computes from
+the sequence of acknowledgement flags.  (Holds for every `n`; for `n = 0` nothing is ever reported.) -/
+theorem link_error_iff (n : Nat) (ops : List Op) (hops : ∀ op ∈ ops, op.Answered) :
+    (dataTrace (Host.init n) ops).map (·.2) = specErrs n 0 ((dataTrace (Host.init n) ops).map (·.1)) :=
+  trace_spec (Host.init n) 0 rfl (by simp [Host.init]) ops hops
+
+/-- `Crazyradio.send_packet`'s reading of the dongle's status byte: bit 0 = acknowledged, bit 1 = power detector,
+high nibble = retry count, rest of the reply = ack payload; a zero status byte means "no ack". -/
+theorem ack_status_decoding (s : UInt8) (rest : Bytes) (arc : Nat) :
+    (s ≠ 0 → decodeUsb (some (s :: rest)) arc =
+      .ok (.resp { ack := s.toNat % 2 = 1, powerDet := s.toNat / 2 % 2 = 1, retry := s.toNat / 16, data := rest })) ∧
+    decodeUsb (some (0 :: rest)) arc = .ok (.resp { ack := false, powerDet := false, retry := arc, data := [] }) ∧
+    decodeUsb none arc = .ok .none := by
+  refine ⟨fun hs => ?_, rfl, rfl⟩
+  have h := status_fields ⟨s.toNat, s.toNat_lt⟩
+  simp only at h
+  have hs' : s.toNat ≠ 0 := fun h0 => hs (by rw [u8_eq s, h0]; rfl)
+  simp only [decodeUsb, hs', ne_eq, not_false_eq_true, if_true, h.1, h.2.1, h.2.2]
+
+/-- The channel as the driver sees it: whatever the status byte's other bits, a transmission is reported as
+acknowledged iff its outcome was `ok`, and then the ack payload is handed over unchanged. -/
+theorem acked_iff_ok (st : UInt8) (o : Outcome) (payload : Bytes) :
+    ∃ a, decodeUsb (some (usbReply st o payload)) 0 = .ok (.resp a) ∧ (a.ack = true ↔ o = .ok) ∧
+      (o = .ok → a.data = payload) ∧ (o ≠ .ok → a.data = []) := by
+  by_cases ho : o = .ok
+  · subst ho
+    obtain ⟨a, h1, h2, h3⟩ := decode_ok st payload
+    exact ⟨a, h1, by simp [h2], fun _ => h3, fun h => absurd rfl h⟩
+  · obtain ⟨a, h1, h2, h3⟩ := decode_lost st o ho payload
+    exact ⟨a, h1, by simp [h2, ho], fun h => absurd h ho, fun _ => h3⟩
+
+/-! ## The closed system: driver ∥ lossy channel ∥ safelink peer (Spec/C01; the peer is an ASSUMPTION)
+
+`ops` is any interleaving of application submissions (incl. a blocked one and its timeout), packets queued by the
+Crazyflie, and transmissions with their outcome `ok | upLost | ackLost`.  `SysOp.WF`: the application submits no
+safelink control frame, the Crazyflie queues no empty packet.  The peer starts in ANY state of its counters
+(`Peer.Fresh`: only its logs are empty). -/
+
+/-- Uplink: the non-null packets handed to the Crazyflie are, at every moment, a prefix of the packets accepted by
+`RadioDriver.send_packet` (same order, none duplicated, none skipped; header bits 3..2 are link-layer bits), whatever
+was lost so far; and three acknowledged idle transmissions later they are ALL of them. -/
+theorem uplink_exactly_once_in_order (n : Nat) (p : Peer) (hp : p.Fresh) (ops : List SysOp) (wf : ∀ op ∈ ops, op.WF) :
+    let s := (Sys.init n p).run ops
+    s.host.safelink = true →
+      upView s.peer.rxq <+: upView ((accepted s.evs).map Pkt.frame) ∧
+      ∀ x y z : UInt8 × UInt8, let s' := s.run (okRun [x, y, z])
+        upView s'.peer.rxq = upView ((accepted s'.evs).map Pkt.frame) := by
+  intro s hs
+  have inv := dataInv_of_safelink n p hp ops wf hs
+  exact ⟨up_prefix inv, fun x y z => up_drained inv x y z⟩
+
+/-- Downlink: the non-idle packets that came out of `receive_packet` are, at every moment, a prefix of the packets the
+Crazyflie queued for the host (same order, none duplicated, none skipped); and after one more acknowledged transmission
+than there are packets still pending in the peer they are ALL of them. -/
+theorem downlink_exactly_once_in_order (n : Nat) (p : Peer) (hp : p.Fresh) (ops : List SysOp) (wf : ∀ op ∈ ops, op.WF) :
+    let s := (Sys.init n p).run ops
+    s.host.safelink = true →
+      downView (received s.evs) <+: downView (p.txq ++ queuedBy ops) ∧
+      ∀ l : List (UInt8 × UInt8), s.peer.txq.length + 1 ≤ l.length → let s' := s.run (okRun l)
+        downView (received s'.evs) = downView (p.txq ++ queuedBy ops) := by
+  intro s hs
+  have inv := dataInv_of_safelink n p hp ops wf hs
+  have hq : s.peer.queued = p.txq ++ queuedBy ops := by
+    have := run_queued (Sys.init n p) ops
+    rw [show (Sys.init n p).peer.queued = p.txq by simp [Sys.init, Peer.queued, hp.2.1]] at this
+    exact this
+  refine ⟨hq ▸ dn_prefix inv, fun l hl => ?_⟩
+  have h1 := dn_drained inv l hl
+  have h2 := run_queued s (okRun l)
+  have h3 := queuedBy_okRun l
+  simp only at h1 ⊢
+  rw [h1, h2, h3, List.append_nil, hq]
+
+/-- In the closed system the driver is in safelink mode only if the peer is. -/
+theorem safelink_confirmed_by_peer (n : Nat) (p : Peer) (hp : p.Fresh) (ops : List SysOp) (wf : ∀ op ∈ ops, op.WF) :
+    let s := (Sys.init n p).run ops
+    s.host.safelink = true → s.peer.safelink = true := by
+  intro s hs
+  exact (dataInv_of_safelink n p hp ops wf hs).ps
+
+/-! ## Non-vacuity: concrete instances -/
+
+/-- the 12-operation run used below: all three outcomes, two submissions (the second one blocks), one downlink packet -/
+def demoOps : List SysOp :=
+  [.xmit .ackLost 0x20 0x40, .xmit .ok 0x30 0x41, .sub ⟨0x3C, [1, 2]⟩, .sub ⟨0x4D, [3]⟩, .queue [0x5C, 9],
+   .xmit .ok 0 0x42, .xmit .ackLost 0 0x43, .xmit .upLost 0 0x44, .xmit .ok 0 0x45, .xmit .ok 0 0x46, .xmit .ok 0 0x47]
+
+example : Peer.init.Fresh := ⟨rfl, rfl, by simp [Peer.init]⟩
+example : ∀ op ∈ demoOps, op.WF := by decide
+example : ((Sys.init 3 Peer.init).run demoOps).host.safelink = true := by decide +kernel
+example : ((Sys.init 3 Peer.init).run demoOps).peer.rxq = [[0xF3], [0x3C, 1, 2], [0x41, 3], [0xFF]] := by decide +kernel
+example : upView ((Sys.init 3 Peer.init).run demoOps).peer.rxq = [[0x30, 1, 2], [0x41, 3]] := by decide +kernel
+example : downView (received ((Sys.init 3 Peer.init).run demoOps).evs) = [[0x50, 9]] := by decide +kernel
+example : (dataTrace (Host.init 2) [.tx (.resp ⟨true, false, 0, [0xff, 5, 1]⟩), .tx (.resp ⟨false, false, 0, []⟩),
+    .tx (.resp ⟨false, false, 0, []⟩), .tx (.resp ⟨false, false, 0, []⟩), .tx (.resp ⟨true, false, 0, [0xF3, 1, 7]⟩),
+    .tx (.resp ⟨false, false, 0, []⟩)]) = [(false, false), (false, true), (false, false), (true, false), (false, false)] := by
+  decide +kernel
+example : specErrs 2 0 [false, false, false, true, false, false] = [false, true, false, false, false, true] := by decide
+example : (negAnswers (Host.init 3) [.tx (.resp ⟨false, false, 0, []⟩), .tx (.resp ⟨true, false, 0, [0xff, 5, 1]⟩),
+    .tx (.resp ⟨true, false, 0, [0xF3, 1, 7]⟩)]).any isEcho = true := by decide +kernel
 
 end CfVerif.C01
